@@ -188,7 +188,8 @@ class Exec(ExprMixin, CallMixin):
                 res = coerce(val, rt) if not isinstance(rt, T._None) else val
             except Unsupported as e:
                 raise ContractError('%s: return value of type %s does not fit declared %s' % (c.name, val.t, rt))
-            env = {'result': res}
+            env = {k: v for k, v in self.entry.locals.items() if v is not None}   # parameters denote entry values
+            env['result'] = res
             self.use_lemmas(c.at_exit, st, env)
             for i, e in enumerate(c.ensures):
                 o = eng.obl('post', 'ensures#%d' % i, e)
@@ -1088,12 +1089,30 @@ class Exec(ExprMixin, CallMixin):
         cov = self.eng.obl('cover', 'segment', 'segment precondition satisfiable')
         cov.expect_sat = True
         cov.add(st.hyps(), z3.BoolVal(True))
-        # statements from the loop to the end of the enclosing top-level block
-        body = self.fn.body
-        for i, s in enumerate(body):
-            if s is node:
-                return self.block(body[i:], st)
-        raise Unsupported('start_loop must name a top-level loop')
+        # continuation of the loop: rest of its block, then what follows each enclosing `if`
+        def find(stmts):
+            for i, s_ in enumerate(stmts):
+                if s_ is node:
+                    return [stmts[i:]]
+                if isinstance(s_, ast.If):
+                    for blk in (s_.body, s_.orelse):
+                        r = find(blk)
+                        if r is not None:
+                            return r + [stmts[i + 1:]]
+            return None
+        chain = find(self.fn.body)
+        if chain is None:
+            raise Unsupported('start_loop must name a loop nested only inside if-statements')
+        out = Out()
+        cur = st
+        for blk in chain:
+            if cur is None:
+                break
+            o = self.block(blk, cur)
+            out.absorb(o)
+            cur = o.normal
+        out.normal = cur
+        return out
 
     # ------------------------------------------------------------------ contract calls
     def call_contract(self, c, args, kw, st, n):
